@@ -16,7 +16,11 @@ type Locker = sync.Locker
 type Mutex struct {
 	mu     sync.Mutex
 	locked bool
+	holder int
 }
+
+// HeldByCurrent reports whether the running managed goroutine holds the mutex.
+func (m *Mutex) HeldByCurrent(write bool) bool { return m.locked && m.holder == vsched.CurrentID() }
 
 func (m *Mutex) Lock() {
 	if !vsched.Active() {
@@ -25,6 +29,7 @@ func (m *Mutex) Lock() {
 	}
 	vsched.BlockUntil("lock", "Mutex.Lock", func() bool { return !m.locked })
 	m.locked = true
+	m.holder = vsched.CurrentID()
 }
 
 func (m *Mutex) TryLock() bool {
@@ -35,6 +40,7 @@ func (m *Mutex) TryLock() bool {
 		return false
 	}
 	m.locked = true
+	m.holder = vsched.CurrentID()
 	return true
 }
 
@@ -51,9 +57,20 @@ func (m *Mutex) Unlock() {
 
 // RWMutex ---------------------------------------------------------------------------------------
 type RWMutex struct {
-	mu      sync.RWMutex
-	writer  bool
-	readers int
+	mu       sync.RWMutex
+	writer   bool
+	readers  int
+	wholder  int
+	rholders map[int]int
+}
+
+// HeldByCurrent reports whether the running managed goroutine holds the lock (exclusively when write).
+func (m *RWMutex) HeldByCurrent(write bool) bool {
+	id := vsched.CurrentID()
+	if m.writer && m.wholder == id {
+		return true
+	}
+	return !write && m.rholders[id] > 0
 }
 
 func (m *RWMutex) Lock() {
@@ -63,6 +80,7 @@ func (m *RWMutex) Lock() {
 	}
 	vsched.BlockUntil("lock", "RWMutex.Lock", func() bool { return !m.writer && m.readers == 0 })
 	m.writer = true
+	m.wholder = vsched.CurrentID()
 }
 func (m *RWMutex) Unlock() {
 	if !vsched.Active() {
@@ -81,6 +99,10 @@ func (m *RWMutex) RLock() {
 	}
 	vsched.BlockUntil("lock", "RWMutex.RLock", func() bool { return !m.writer })
 	m.readers++
+	if m.rholders == nil {
+		m.rholders = map[int]int{}
+	}
+	m.rholders[vsched.CurrentID()]++
 }
 func (m *RWMutex) RUnlock() {
 	if !vsched.Active() {
@@ -91,6 +113,16 @@ func (m *RWMutex) RUnlock() {
 		panic("vsync: RUnlock of unlocked RWMutex")
 	}
 	m.readers--
+	if id := vsched.CurrentID(); m.rholders[id] > 0 {
+		m.rholders[id]--
+	} else {
+		for k, v := range m.rholders { // released by another goroutine than the one which took it
+			if v > 0 {
+				m.rholders[k]--
+				break
+			}
+		}
+	}
 }
 func (m *RWMutex) RLocker() Locker { return (*rlocker)(m) }
 
